@@ -171,13 +171,15 @@ def zero_lean(t):
     if h == 'named':
         d = u[1]
         if d.kind == 'struct':
-            return '(struct' + ''.join(' ' + zero_lean(f[1]) for f in d.fields) + ')'
+            return '(struct' + ''.join(' (blankf %s)' % zero_lean(f[1]) if f[0] == '_' else ' ' + zero_lean(f[1]) for f in d.fields) + ')'
         return '(nil iface)'
     if h == 'ptr':
         return '(nil ptr)'
     if h == 'slice':
         return '(nil slice)'
     if h == 'arr':
+        if u[1] > 4:
+            return '(zeroarr %d %s)' % (u[1], zero_lean(u[2]))
         return '(arr' + (' ' + zero_lean(u[2])) * u[1] + ')'
     if h == 'func':
         return '(nil func)'
@@ -385,6 +387,22 @@ class Conv(E):
         return '(conv %s %s)' % (int_kind(self.ty), self.a.lean())
 
 
+class ConvNamed(E):
+    """conversion that only changes the static type (e.g. a func value to a named func type): the value is unchanged"""
+
+    def __init__(self, ty, e):
+        self.ty, self.e = ty, e
+
+    def kids(self):
+        return [self.e]
+
+    def go(self, cx):
+        return '%s(%s)' % (go_type(self.ty, cx), self.e.go(cx))
+
+    def lean(self):
+        return self.e.lean()
+
+
 class StrConv(E):
     """kind: strofbytes | bytesofstr | strofrune"""
 
@@ -535,21 +553,29 @@ class FuncLit(E):
 
 
 class StructLit(E):
-    def __init__(self, ty, fields):
-        self.ty, self.fields = ty, fields
+    """composite literal with a value for every field.  Keyed in the Go text, except that a struct with blank (`_`) fields
+    is written positionally when `positional` (only legal inside the declaring package) - the only way to give a blank
+    field a non-zero value; in the keyed form the blank fields are omitted and must be given as Zero here."""
+
+    def __init__(self, ty, fields, positional=False):
+        self.ty, self.fields, self.positional = ty, fields, positional
 
     def kids(self):
         return self.fields
 
     def go(self, cx):
         d = under(self.ty)[1]
+        if self.positional:
+            return '%s{%s}' % (go_type(self.ty, cx), ', '.join(e.go(cx) for e in self.fields))
         parts = []
         for (fn, ft, emb), e in zip(d.fields, self.fields):
-            parts.append('%s: %s' % (fn, e.go(cx)))
+            if fn != '_':
+                parts.append('%s: %s' % (fn, e.go(cx)))
         return '%s{%s}' % (go_type(self.ty, cx), ', '.join(parts))
 
     def lean(self):
-        return '(struct%s)' % _args_lean(self.fields)
+        d = under(self.ty)[1]
+        return '(struct%s)' % ''.join(' (blankf %s)' % e.lean() if f[0] == '_' else ' ' + e.lean() for f, e in zip(d.fields, self.fields))
 
 
 class SeqLit(E):
